@@ -172,19 +172,28 @@ pub fn decode(base38_str: &str) -> impl Iterator<Item = Result<u8, Error>> + '_ 
             let offset = stru.len() / 5 * 5;
             decode_base38(&stru[offset..])
         })
-        .take_while(Result::is_ok)
+        // Yield the first error (so that callers see it) and stop after it
+        .scan(false, |failed, item| {
+            if *failed {
+                None
+            } else {
+                *failed = item.is_err();
+                Some(item)
+            }
+        })
 }
 
 fn decode_base38(chars: &[u8]) -> impl Iterator<Item = Result<u8, Error>> {
     let mut value = 0u32;
     let mut cerr = None;
 
-    let repeat = match chars.len() {
-        5 => 3,
-        4 => 2,
-        2 => 1,
-        0 => 0,
-        _ => -1,
+    // (number of decoded bytes, number of values these bytes can hold)
+    let (repeat, limit) = match chars.len() {
+        5 => (3, 1u32 << 24),
+        4 => (2, 1 << 16),
+        2 => (1, 1 << 8),
+        0 => (0, 1),
+        _ => (-1, 0),
     };
 
     if repeat >= 0 {
@@ -201,19 +210,25 @@ fn decode_base38(chars: &[u8]) -> impl Iterator<Item = Result<u8, Error>> {
         cerr = Some(ErrorCode::InvalidData)
     }
 
-    (0..repeat)
-        .map(move |_| {
-            if let Some(err) = cerr {
-                Err(err.into())
-            } else {
-                let byte = (value & 0xff) as u8;
+    // A group whose value does not fit the bytes it stands for is not base38
+    if cerr.is_none() && repeat > 0 && value >= limit {
+        cerr = Some(ErrorCode::InvalidData);
+    }
 
-                value >>= 8;
+    // On error: exactly one `Err` item
+    let items = if cerr.is_some() { 1 } else { repeat };
 
-                Ok(byte)
-            }
-        })
-        .take_while(Result::is_ok)
+    (0..items).map(move |_| {
+        if let Some(err) = cerr {
+            Err(err.into())
+        } else {
+            let byte = (value & 0xff) as u8;
+
+            value >>= 8;
+
+            Ok(byte)
+        }
+    })
 }
 
 fn decode_char(c: u8) -> Result<u8, Error> {
